@@ -142,6 +142,10 @@ func expStress(cfg *config) {
 		{Code: termemu.KeyUp}, {Code: termemu.KeyDown, Mod: termemu.ModShift}, {Code: termemu.KeyHome},
 		{Code: termemu.KeyEnter}, {Code: termemu.KeyTab, Mod: termemu.ModShift}, {Code: termemu.KeyF5},
 		{Code: termemu.KeyBackspace, Mod: termemu.ModAlt}, {Code: termemu.KeyRune, Rune: 0x4e2d}, {Code: termemu.KeyEscape},
+		// events that encode to no bytes unless the application enabled the matching enhancement (early-return paths)
+		{Code: termemu.KeyRune, Rune: 'a', Event: termemu.KeyRelease}, {Code: termemu.KeyUp, Event: termemu.KeyRelease},
+		{Code: termemu.KeyLeftShift, Mod: termemu.ModShift}, {Code: termemu.KeyCapsLock}, {Code: termemu.KeyLeftShift, Event: termemu.KeyRelease},
+		{Code: termemu.KeyRune, Rune: 'x', Event: termemu.KeyRepeat}, {},
 	}
 	for i := 0; i < cfg.workers; i++ {
 		ctr := wd.add(fmt.Sprintf("worker%d", i))
